@@ -6,7 +6,7 @@ and tab indentation) x the FULL PRODUCT of the tab family
    indent_with_tabs {0,1,2} x indent_columns {1,2,3,4,8} x output_tab_size {1,2,3,4,8} x align_with_tabs x align_keep_tabs x
    pp_indent_with_tabs {-1,0,1,2} x indent_cmt_with_tabs              (2400 configurations; quick: a 240-configuration sub-product)
 with alignment switched on, the end-of-file family nl_end_of_file (4) x nl_end_of_file_min {0..3} x six input endings, and every
-single deviation over the indent_* / align_* / pp_* / cmt_* layout options the run reads, on three tab bases.
+single deviation over the indent_* / align_* / pp_* / cmt_* layout options the run reads, on five tab bases (three uniform, two where code and directives are governed differently).
 
 Oracle (comments, literals masked by the independent lexer): no line ends in a blank; leading whitespace has no tab when the
 governing option is 0 and no space before a tab when it is 1 or 2 (directive lines incl. their continuation lines are governed by
@@ -58,6 +58,13 @@ def judge_text(src, out, lang, st):
         is_dir = in_dir or (stripped.startswith(b"#") and not starts_masked) or (stripped.startswith(b"%:") and not starts_masked)
         # a directive continues while the physical line ends in a backslash
         in_dir = is_dir and line.rstrip(b" \t").endswith(b"\\")
+        if not stripped and blank_ok and line and not starts_masked:
+            # an indented blank line (indent_single_newlines) is indentation and nothing else: the code rule applies to all of it
+            if iwt == 0 and b"\t" in line:
+                v.append(("tab-in-indentation-with-tabs-off", "line %d (blank line) first=blank: %r" % (ln_no + 1, line)))
+            elif iwt in (1, 2) and b" \t" in line:
+                v.append(("space-before-tab-in-indentation", "line %d (blank line): %r" % (ln_no + 1, line)))
+            continue
         if starts_masked or not stripped:
             continue
         gov = pp if is_dir else iwt
@@ -244,7 +251,9 @@ def check(ctx):
     for name, lang, src in progs:
         if name.startswith("d2-") or (quick and name not in ("c-basic", "cpp-class", "pp-define-multi", "decl-varblock", "stmts:0", "pp-if-inside")):
             continue
-        for bn, base in (("tabs0", {"indent_with_tabs": "0"}), ("tabs1", {"indent_with_tabs": "1"}), ("tabs2", {"indent_with_tabs": "2"})):
+        for bn, base in (("tabs0", {"indent_with_tabs": "0"}), ("tabs1", {"indent_with_tabs": "1"}), ("tabs2", {"indent_with_tabs": "2"}),
+                         # code and directives governed differently: an option read for the one must not leak into the other
+                         ("tabs0-pp2", {"indent_with_tabs": "0", "pp_indent_with_tabs": "2"}), ("tabs2-pp0", {"indent_with_tabs": "2", "pp_indent_with_tabs": "0"})):
             b = dict(ALIGN_ON); b.update(base)
             lay = dict(layouts17(src)).get("space-tab-indent", src)
             groups.append(bee.Group("C17", name + "/space-tab-indent", lay, lang, bn, b, bee_judge, fam, None, 1, deadline=dl))
